@@ -222,8 +222,7 @@ fn consistent_truths(kind: u8, r: u64) -> Vec<u64> {
     }
 }
 
-fn exhaustive_evaluate(report: &Report, sink: &Sink, small: &Small, stop: &(dyn Fn() -> bool + Sync)) -> bool {
-    let shapes = all_shapes(3, 3);
+fn exhaustive_evaluate(report: &Report, sink: &Sink, small: &Small, shapes: &[Shape], stop: &(dyn Fn() -> bool + Sync)) -> bool {
     // leaf row sets for both representations
     let sets: Vec<Vec<RowIdTreeMap>> = [false, true]
         .iter()
@@ -235,6 +234,12 @@ fn exhaustive_evaluate(report: &Report, sink: &Sink, small: &Small, stop: &(dyn 
         let n = s.leaves();
         for kinds in 0..3usize.pow(n as u32) {
             for fm in 0..2usize {
+                // `RowIdMask | RowIdMask` subtracts lists from each other; "full fragment minus
+                // partial" materialises a 2^32-row bitmap (10 s, 512 MB). Full-fragment markers are
+                // therefore only enumerated for shapes whose OR nodes combine NOT-free subtrees.
+                if fm == 1 && !s.or_safe() {
+                    continue;
+                }
                 units.push((si, kinds, fm));
             }
         }
@@ -247,12 +252,14 @@ fn exhaustive_evaluate(report: &Report, sink: &Sink, small: &Small, stop: &(dyn 
         let (si, kinds_code, fm) = units[ui as usize];
         let shape = &shapes[si];
         let n = shape.leaves();
+        let deep = shape.depth() > 3;
         let kinds: Vec<u8> = (0..n).map(|l| ((kinds_code / 3usize.pow(l as u32)) % 3) as u8).collect();
         let expr = shape.to_expr();
         let index = Arc::new(MockIndex::default());
         let loader = MockLoader { index: index.clone() };
         let mut sigs = Vec::with_capacity(16usize.pow(n as u32));
         let (mut ev, mut ck, mut br) = (0u64, 0u64, 0u64);
+        let mut local: Vec<((u8, &'static str, bool), u64, String, String, serde_json::Value)> = vec![];
         for rcode in 0..16usize.pow(n as u32) {
             let rs: Vec<u64> = (0..n).map(|l| ((rcode >> (4 * l)) & 15) as u64).collect();
             {
@@ -314,31 +321,41 @@ fn exhaustive_evaluate(report: &Report, sink: &Sink, small: &Small, stop: &(dyn 
             if let Some((class, xs, t)) = bad {
                 br += 1;
                 let two = negates_two_list_mask(&expr, &loader);
-                let sig = format!(
-                    "evaluate:{}-guarantee-broken:{}:{}",
-                    KIND_NAMES[kind as usize],
-                    class,
-                    if two { "tree-negates-mask-with-allow-and-block-list" } else { "no-two-list-negation" }
-                );
-                let what = format!(
-                    "{} with leaves {:?} claims {} but selects rows {:04b} while the true matches are {:04b}",
-                    shape.text(),
-                    kinds.iter().map(|k| KIND_NAMES[*k as usize]).collect::<Vec<_>>(),
-                    KIND_NAMES[kind as usize],
-                    r,
-                    t
-                );
-                sink.violation_lazy(&sig, &what, || {
-                    json!({"seed": report.seed as i64, "part": "exhaustive-evaluate", "expr": shape.text(),
+                let key = (kind, class, two);
+                if let Some(e) = local.iter_mut().find(|e| e.0 == key) {
+                    e.1 += 1;
+                } else {
+                    let sig = format!(
+                        "evaluate:{}-guarantee-broken:{}:{}",
+                        KIND_NAMES[kind as usize],
+                        class,
+                        if two { "tree-negates-mask-with-allow-and-block-list" } else { "no-two-list-negation" }
+                    );
+                    let what = format!(
+                        "{} with leaves {:?} claims {} but selects rows {:04b} while the true matches are {:04b}",
+                        shape.text(),
+                        kinds.iter().map(|k| KIND_NAMES[*k as usize]).collect::<Vec<_>>(),
+                        KIND_NAMES[kind as usize],
+                        r,
+                        t
+                    );
+                    let wit = json!({"seed": report.seed as i64, "part": "exhaustive-evaluate", "expr": shape.text(),
                         "universe_addresses": small.u, "full_fragment_markers": fm == 1,
                         "leaf_kinds": kinds.iter().map(|k| KIND_NAMES[*k as usize]).collect::<Vec<_>>(),
                         "leaf_returned_sets_bits": rs, "leaf_true_sets_bits": xs,
                         "result_kind": KIND_NAMES[kind as usize], "result_selected_bits": r, "true_bits": t,
-                        "result_mask": format!("{mask:?}")})
-                });
+                        "result_mask": format!("{mask:?}")});
+                    local.push((key, 1, sig, what, wit));
+                }
             }
             if shape.has_op() && r != 0 && r != 0xF {
-                sigs.push(hash_of(&("eval", si, kinds_code, fm, rcode)));
+                // depth<=3 shapes: every (shape, kinds, returned sets) is its own class; the many
+                // depth-4 cases are classed by (shape, kinds, outcome) to keep the set small
+                if deep {
+                    sigs.push(hash_of(&("eval4", si, kinds_code, fm, r, kind)));
+                } else {
+                    sigs.push(hash_of(&("eval", si, kinds_code, fm, rcode)));
+                }
             }
             if !sampled.load(Ordering::Relaxed) && shape.leaves() == 3 && rcode == 0x3A5 && !sampled.swap(true, Ordering::Relaxed) {
                 report.sample(json!({"part": "exhaustive-evaluate", "expr": shape.text(),
@@ -350,6 +367,9 @@ fn exhaustive_evaluate(report: &Report, sink: &Sink, small: &Small, stop: &(dyn 
         for s in sigs {
             report.nontrivial(s);
         }
+        for (_, n, sig, what, wit) in local {
+            sink.violation_n(&sig, &what, wit, n);
+        }
         evals.fetch_add(ev, Ordering::Relaxed);
         checks.fetch_add(ck, Ordering::Relaxed);
         broken.fetch_add(br, Ordering::Relaxed);
@@ -357,8 +377,12 @@ fn exhaustive_evaluate(report: &Report, sink: &Sink, small: &Small, stop: &(dyn 
     report.count("evaluate_calls_small_universe", evals.load(Ordering::Relaxed));
     report.count("evaluate_truth_assignments_checked", checks.load(Ordering::Relaxed));
     report.count("evaluate_cases_with_broken_guarantee", broken.load(Ordering::Relaxed));
-    report.set("evaluate_tree_shapes", json!(shapes.len()));
-    done == units.len() as u64
+    let complete = done == units.len() as u64;
+    if complete {
+        report.count("evaluate_tree_shapes_completed", shapes.len() as u64);
+        report.count("evaluate_tree_shapes_completed_with_full_fragment_markers", shapes.iter().filter(|s| s.or_safe()).count() as u64);
+    }
+    complete
 }
 
 // ------------------------------------------------------------------------------------------
@@ -366,7 +390,7 @@ fn exhaustive_evaluate(report: &Report, sink: &Sink, small: &Small, stop: &(dyn 
 
 fn random_map_case(report: &Report, sink: &Sink, i: u64) {
     let mut rng = Rng::for_case(report.seed, i);
-    let heavy = i % 500 == 499;
+    let heavy = false; // operations materialising a 2^32-row bitmap run in `heavy_ops` only
     let _g = if heavy { Some(HEAVY_LOCK.lock().unwrap()) } else { None };
     let pools = Pools::gen(&mut rng);
     let max_ops = if heavy { 6 } else { 30 };
@@ -416,7 +440,7 @@ fn random_map_case(report: &Report, sink: &Sink, i: u64) {
         }
         Ok(Err((c, d))) => {
             report.case(None);
-            let part = if c.starts_with("mask") || c.starts_with("treemap-mask") { "" } else { "treemap:" };
+            let part = if c.starts_with("mask-") { "mask:" } else { "treemap:" };
             sink.violation_lazy(&format!("{part}{c}"), &d, || {
                 json!({"seed": report.seed as i64, "part": "random-maps", "case": i, "detail": d, "op_logs": logs, "fragment_pool": pools.frags})
             });
@@ -535,7 +559,7 @@ fn random_eval_case(report: &Report, sink: &Sink, i: u64) {
         let mut marks = 0;
         for (f, idxs) in &frag_rows {
             let all = idxs.iter().all(|k| bv_get(&r, *k));
-            if all && rng.bool() {
+            if all && rng.bool() && shape.or_safe() {
                 set.insert_fragment(*f);
                 marks += 1;
             } else {
@@ -620,32 +644,6 @@ fn random_eval_case(report: &Report, sink: &Sink, i: u64) {
 // child-process probes: calls that may not terminate are never made in the checking process
 
 fn probe_main(name: &str) -> i32 {
-    if name == "heavy_timing" {
-        let t = std::time::Instant::now();
-        let mut a = RowIdTreeMap::new();
-        a.insert_fragment(3);
-        let mut b = RowIdTreeMap::new();
-        b.insert(addr(3, 7));
-        let d = a.clone() - b.clone();
-        println!("sub {:?}", t.elapsed());
-        let bm = d.get_fragment_bitmap(3).unwrap();
-        println!("len {} {:?}", bm.len(), t.elapsed());
-        println!("rc {} {:?}", bm.range_cardinality(8..=u32::MAX), t.elapsed());
-        let _ = d.row_ids().map(|_| ());
-        println!("row_ids {:?}", t.elapsed());
-        let mut buf = vec![];
-        d.serialize_into(&mut buf).unwrap();
-        println!("ser {} {:?}", buf.len(), t.elapsed());
-        let c = d.clone();
-        println!("clone {:?}", t.elapsed());
-        drop(c);
-        let mut pp = Pair::new();
-        pp.real = d;
-        pp.model = IvSet::fragment(3).minus(&IvSet::interval(addr(3, 7), addr(3, 7)));
-        pp.touched.insert(3);
-        println!("check {:?} {:?}", pp.check("x").is_ok(), t.elapsed());
-        return 0;
-    }
     let mut m = RowIdTreeMap::new();
     let (n, want): (u64, Vec<u64>) = match name {
         "range_to_u64_max" => (m.insert_range(u64::MAX - 3..=u64::MAX), (u64::MAX - 3..=u64::MAX).collect()),
@@ -671,7 +669,7 @@ fn probe_main(name: &str) -> i32 {
 
 fn run_probe(name: &str) -> Result<String, String> {
     let exe = std::env::current_exe().map_err(|e| e.to_string())?;
-    let cmd = format!("ulimit -v 3000000; exec '{}' C21 --probe {}", exe.display(), name);
+    let cmd = format!("ulimit -v 1000000; exec '{}' C21 --probe {}", exe.display(), name);
     let mut child = std::process::Command::new("sh")
         .arg("-c")
         .arg(cmd)
@@ -697,10 +695,10 @@ fn run_probe(name: &str) -> Result<String, String> {
                 });
             }
             Ok(None) => {
-                if start.elapsed().as_secs() >= 8 {
+                if start.elapsed().as_secs() >= 120 {
                     let _ = child.kill();
                     let _ = child.wait();
-                    return Ok("no-termination-within-8s".into());
+                    return Ok("timeout".into());
                 }
                 std::thread::sleep(std::time::Duration::from_millis(20));
             }
@@ -720,11 +718,14 @@ fn probes(report: &Report, sink: &Sink) {
     for name in ["range_to_u64_max", "range_in_last_fragment"] {
         match run_probe(name) {
             Ok(s) if s == "ok" => report.count("child_probes_ok", 1),
+            Ok(s) if s == "timeout" => report.inconclusive(&format!("probe {name}: still running after 120 s (killed); not counted as a violation")),
             Ok(s) => {
+                // the child runs under `ulimit -v 1 GB`: a call that should add a handful of rows
+                // and instead dies from memory exhaustion is a deterministic observation
                 let class = if s.starts_with("mismatch") { "wrong-content" } else { "does-not-terminate-or-exhausts-memory" };
                 sink.violation_lazy(
                     &format!("treemap:insert_range:range-ending-in-fragment-u32max:{class}"),
-                    &format!("probe {name}: {s} (the control probe in fragment u32::MAX-1 returns at once)"),
+                    &format!("probe {name}: {s} (child limited to 1 GB address space; the same call in fragment u32::MAX-1 returns at once)"),
                     || json!({"probe": name, "outcome": s, "replay": format!("e_sets C21 --probe {name}")}),
                 );
             }
@@ -735,6 +736,63 @@ fn probes(report: &Report, sink: &Sink) {
 }
 
 // ------------------------------------------------------------------------------------------
+
+/// Operations that turn a full-fragment marker into an explicit 2^32-row bitmap (measured: about
+/// 10 s and 512 MB each in this build). Run on one background thread while the rest proceeds.
+fn heavy_ops(report: &Report, sink: &Sink, seed: u64) {
+    let mut rng = Rng::for_case(seed, 0xEA51);
+    let mut k = 0u64;
+    while report.elapsed_s() < report.budget_s() as f64 * 0.6 {
+        let f = *rng.pick(&[0u32, 1, 7, 65_536, 0xFFFF_FFFE]);
+        let off = *rng.pick(&[0u32, 1, 65_535, 65_536, 0x8000_0000, u32::MAX - 1, u32::MAX]);
+        let mut p = Pair::new();
+        p.touched.insert(f);
+        let which = (seed + k) % 3;
+        let r = guarded(|| -> Result<(), Fail> {
+            match which {
+                0 => {
+                    p.real.insert_fragment(f);
+                    p.model = IvSet::fragment(f);
+                    p.log.push(format!("insert_fragment({f}); remove({:#x})", addr(f, off)));
+                    let got = p.real.remove(addr(f, off));
+                    let want = p.model.remove(addr(f, off));
+                    if got != want {
+                        return Err(("remove:return-value".into(), format!("remove from full fragment returned {got}")));
+                    }
+                    p.check("remove-from-full-fragment")
+                }
+                1 => {
+                    p.real.insert_fragment(f);
+                    p.model = IvSet::fragment(f);
+                    let mut b = RowIdTreeMap::new();
+                    b.insert(addr(f, off));
+                    b.insert(addr(f, off ^ 1));
+                    p.log.push(format!("full({f}) -= {{{off}, {}}}", off ^ 1));
+                    p.real -= &b;
+                    p.model = p.model.minus(&IvSet::from_points([addr(f, off), addr(f, off ^ 1)]));
+                    p.check("full-fragment-minus-partial")
+                }
+                _ => {
+                    p.touched.insert(f + 1);
+                    let r = RangeSpec { s: B::Inc(addr(f, off)), e: B::Exc(addr(f + 1, 3)) };
+                    p.real.insert(addr(f, 0));
+                    p.model.insert(addr(f, 0));
+                    apply_range(&mut p, r, true)
+                }
+            }
+        });
+        match r {
+            Ok(Ok(())) => report.count("heavy_full_fragment_ops_checked", 1),
+            Ok(Err((c, d))) => sink.violation_lazy(&format!("treemap:{c}"), &d, || json!({"seed": seed as i64, "part": "heavy", "ops": p.log, "detail": d})),
+            Err(e) => sink.violation_lazy("treemap:panic-in-heavy-op", &e, || json!({"seed": seed as i64, "part": "heavy", "ops": p.log})),
+        }
+        report.case(Some(hash_of(&("heavy", which, f, off))));
+        k += 1;
+        if report.tier == Tier::Quick {
+            break;
+        }
+    }
+}
 
 fn selftest(args: &Args) -> i32 {
     quiet_panics();
@@ -755,10 +813,11 @@ fn selftest(args: &Args) -> i32 {
     ok &= caught1;
     // 2. corrupted evaluate result (one bit flipped for one leaf assignment per unit)
     let base = Sink::collecting();
-    exhaustive_evaluate(&report, &base, &small, &|| false);
+    let d3: Vec<Shape> = all_shapes(3, 3);
+    exhaustive_evaluate(&report, &base, &small, &d3, &|| false);
     let sink = Sink::collecting();
     CORRUPT_EVAL.store(true, Ordering::Relaxed);
-    exhaustive_evaluate(&report, &sink, &small, &|| false);
+    exhaustive_evaluate(&report, &sink, &small, &d3, &|| false);
     CORRUPT_EVAL.store(false, Ordering::Relaxed);
     let new: Vec<String> = sink.signatures().into_iter().filter(|s| !base.signatures().contains(s)).collect();
     println!("SELFTEST corrupted-evaluate new signatures={new:?}");
@@ -787,7 +846,8 @@ pub fn run(args: &Args) -> i32 {
         return selftest(args);
     }
     quiet_panics();
-    let rule = "Enumerated completely: (a) all pairs of the 23 representations (explicit / full-fragment marker) of the 16 subsets of a 4-address, 2-fragment universe under |,&,- (+assign forms, union_all, extend, serde); (b) all 576x576 pairs of RowIdMask (allow,block in {None}+23) under !,&,|,also_block,also_allow,mask, arrow round trip, selected_indices, iter_ids; (c) ScalarIndexExpr::evaluate on ALL 29 tree shapes of depth<=3 with <=3 leaves x {Exact,AtMost,AtLeast}^leaves x 16^leaves returned sets x 2 representations, each checked against EVERY leaf truth assignment consistent with the leaf kinds. Plus seeded random large tree maps/masks (ranges at 2^32 boundaries, empty/reversed ranges, full-fragment markers) and random evaluate trees (depth<=6, <=8 leaves, <=1200 rows). A case is non-trivial when both operands are non-empty (sets/masks) or the expression has an operator and selects neither none nor all rows.";
+    arm_watchdog(args.tier.pick(240, 1500));
+    let rule = "Enumerated completely: (a) all pairs of the 23 representations (explicit / full-fragment marker) of the 16 subsets of a 4-address, 2-fragment universe under |,&,- (+assign forms, union_all, extend, serde); (b) all 576x576 pairs of RowIdMask (allow,block in {None}+23) under !,&,|,also_block,also_allow,mask, arrow round trip, selected_indices, iter_ids; (c) ScalarIndexExpr::evaluate on ALL 29 tree shapes of depth<=3 with <=3 leaves (and, when `evaluate_depth4_enumeration_complete` is true, also all 139 shapes of depth 4) x {Exact,AtMost,AtLeast}^leaves x 16^leaves returned sets (explicit rows; and again with full-fragment markers for the shapes whose OR nodes have NOT-free operands), each checked against EVERY leaf truth assignment consistent with the leaf kinds. Plus seeded random large tree maps/masks (ranges at 2^32 boundaries, empty/reversed ranges, full-fragment markers) and random evaluate trees (depth<=6, <=8 leaves, <=1200 rows). A case is non-trivial when both operands are non-empty (sets/masks) or the expression has an operator and selects neither none nor all rows.";
     let report = Report::new(args, "exploration", rule, (50, 600)).with_min_nontrivial(1000);
     let sink = Sink::to_report(&report);
     if let Err(e) = model_selfcheck() {
@@ -796,26 +856,57 @@ pub fn run(args: &Args) -> i32 {
     }
     let small = Small::from_seed(args.seed);
     report.set("small_universe", json!(format!("{small:?}")));
-    let heavy_cap = args.tier.pick(4, 200);
-    exhaustive_maps(&report, &sink, &small, heavy_cap);
-    report.set("t_maps_s", json!(report.elapsed_s()));
-    exhaustive_masks(&report, &sink, &small);
-    report.set("t_masks_s", json!(report.elapsed_s()));
-    let complete = exhaustive_evaluate(&report, &sink, &small, &|| !report.time_left());
-    report.exhaustive(complete);
-    if !complete {
-        report.inconclusive("exhaustive evaluate enumeration did not finish within the budget");
-    }
-    report.set("exhaustive_part_wall_s", json!(report.elapsed_s()));
-    probes(&report, &sink);
-    // random large cases until the budget ends
-    let max_cases: u64 = args.tier.pick(400_000, 20_000_000);
-    let threads = n_threads();
-    fan_out(threads, 1, max_cases, &|| report.time_left(), &|i| {
-        if i % 4 == 0 {
-            random_eval_case(&report, &sink, i);
-        } else {
-            random_map_case(&report, &sink, i);
+    let parts = args.extra.get("parts").cloned().unwrap_or_else(|| "heavy,probes,maps,masks,eval,random".into());
+    let on = |p: &str| parts.split(',').any(|x| x == p);
+    let lap = |name: &str| {
+        report.set(&format!("t_after_{name}_s"), json!((report.elapsed_s() * 10.0).round() / 10.0));
+    };
+    std::thread::scope(|sc| {
+        if on("heavy") {
+            sc.spawn(|| heavy_ops(&report, &sink, args.seed));
+        }
+        if on("probes") {
+            sc.spawn(|| probes(&report, &sink));
+        }
+        if on("maps") {
+            exhaustive_maps(&report, &sink, &small, 0);
+            lap("maps");
+        }
+        if on("masks") {
+            exhaustive_masks(&report, &sink, &small);
+            lap("masks");
+        }
+        if on("eval") {
+            let all = all_shapes(4, 3);
+            let d3: Vec<Shape> = all.iter().filter(|s| s.depth() <= 3).cloned().collect();
+            let mut d4: Vec<Shape> = all.iter().filter(|s| s.depth() > 3).cloned().collect();
+            d4.sort_by_key(|s| s.leaves());
+            // depth <= 3: always completed (about 3.1 M evaluate calls)
+            let c3 = exhaustive_evaluate(&report, &sink, &small, &d3, &|| false);
+            report.exhaustive(c3);
+            lap("evaluate_depth3");
+            // depth 4: completed when time allows (always in the thorough tier)
+            let frac = args.tier.pick(0.7, 0.8);
+            let c4 = exhaustive_evaluate(&report, &sink, &small, &d4, &|| report.elapsed_s() > report.budget_s() as f64 * frac);
+            report.set("evaluate_depth4_enumeration_complete", json!(c4));
+            lap("evaluate_depth4");
+        }
+        if on("random") {
+            // random large cases until the budget ends
+            let max_cases: u64 = args.tier.pick(400_000, 20_000_000);
+            fan_out(n_threads(), 1, max_cases, &|| report.time_left(), &|i| {
+                let t0 = std::time::Instant::now();
+                if i % 4 == 0 {
+                    random_eval_case(&report, &sink, i);
+                } else {
+                    random_map_case(&report, &sink, i);
+                }
+                if t0.elapsed().as_secs_f64() > 2.0 {
+                    report.count("slow_random_cases_over_2s", 1);
+                    eprintln!("note: C21 random case {i} took {:.1} s", t0.elapsed().as_secs_f64());
+                }
+            });
+            lap("random");
         }
     });
     if args.tier == Tier::Thorough {
